@@ -60,6 +60,31 @@ def main():
         expect(r["bounds"][0]["executions"] == math.comb(m + n + 3, m + 1), "closed-form schedule count C(%d,%d)" % (m + n + 3, m + 1))
     r = run(b, "litmus_count", 2, ["--args", "3,3", "--no-cache"])
     expect([x["executions"] for x in r["bounds"]] == [1, 5, 21], "preemption-bounded counts 1,5,21 for bounds 0,1,2")
+    # store-buffer mode (--tso): x86-TSO outcomes appear with it and only with it; fences and store order are respected
+    r = run(b, "litmus_sb_rel", 2)
+    expect(not r["failures"] and "r0=0 r1=0 " not in r["outcomes"], "SB(release/acquire) without --tso: no 0/0")
+    r = run(b, "litmus_sb_rel", 2, ["--tso"])
+    expect(not r["failures"] and set(r["outcomes"]) == {"r0=0 r1=0 ", "r0=0 r1=1 ", "r0=1 r1=0 ", "r0=1 r1=1 "}, "SB(release/acquire) with --tso: 0/0 reachable at budget 2")
+    r = run(b, "litmus_sb_rel", 1, ["--tso"])
+    expect("r0=0 r1=0 " not in r["outcomes"], "SB 0/0 needs a buffered store AND a preemption (not reachable at budget 1)")
+    r = run(b, "litmus_sb_fence", 3, ["--tso"])
+    expect(not r["failures"] and "r0=0 r1=0 " not in r["outcomes"], "SB with seq_cst fences: no 0/0 even with --tso")
+    r = run(b, "litmus_dekker_rmw", 2, ["--tso"])
+    expect([f["key"] for f in r["failures"]] == ["lost-waiter"] and r["failures"][0]["bound"] == 2, "unlock-store / lock-exchange without fence: lost waiter found with --tso")
+    r = run(b, "litmus_dekker_rmw", 3)
+    expect(not r["failures"], "the same program is clean under sequential consistency")
+    r = run(b, "litmus_dekker_rmw", 3, ["--tso", "--args", "1"])
+    expect(not r["failures"], "with the seq_cst fence it is clean with --tso")
+    r = run(b, "litmus_mp_tso", 3, ["--tso"])
+    expect(not r["failures"] and set(r["outcomes"]) == {"seen ", "notseen "}, "message passing intact with --tso (stores drain in order)")
+    r = run(b, "litmus_tso_spin", 2, ["--tso"])
+    expect(not r["failures"], "a buffered store reaches a spinning reader (buffers drain)")
+    r = run(b, "litmus_spurious", 2)
+    expect(not r["failures"], "if(!flag) wait: clean while waits never return spuriously")
+    r = run(b, "litmus_spurious", 2, ["--spurious"])
+    expect([f["key"] for f in r["failures"]] == ["woke-unset"], "if(!flag) wait: found with --spurious")
+    r = run(b, "litmus_spurious", 3, ["--spurious", "--args", "1"])
+    expect(not r["failures"], "while(!flag) wait: clean with --spurious")
     # replay determinism
     p = subprocess.run([b.exe("litmus"), "--replay", "litmus_lost_update", "--choices", "0,1,0,0", "--stderr-dir", os.path.join(VERIF, "build", "run")],
                        env=check.ENV, stdout=subprocess.PIPE, stderr=subprocess.PIPE, text=True)
